@@ -82,7 +82,9 @@ ExtentSrc(q) ==
              [] x.fmt = "vmdk" -> VmdkSrc(x.img, q - x.start)
              [] x.fmt = "hds"  -> Hds!CellSrc(HdsImg(x.img), q - x.start)
              [] x.fmt = "chain" -> ChainSrc(x.chain, 1, q - x.start)
-  IN IF t.k = "D" THEN [t EXCEPT !.f = (i - 1) * FMul + (IF x.fmt = "chain" THEN t.f ELSE 0)] ELSE t
+  IN IF t.k = "D" THEN [t EXCEPT !.f = (i - 1) * FMul + (IF x.fmt = "chain" THEN t.f ELSE 0)]
+     ELSE IF t.k = "B" THEN [t EXCEPT !.c = t.c + x.start]      \* the parent is addressed by the guest cell of the whole disk
+     ELSE t
 
 Ev == T.events[l]
 \* the stream object an event was recorded on (layer index, 1 = the stream that was opened)
